@@ -159,6 +159,10 @@ Record arow := mkARow {
 Definition rel (cnt : Z) (size : nat) : option Q :=
   if size =? 0 then None else Some (Qmake cnt (Pos.of_nat size)).
 
+Definition phase_flag (ph : phase) : bool := match ph with Warmup => false | Posterior => true end.
+Definition phase_size (si : sample_info) (ph : phase) : nat :=
+  match ph with Warmup => si_warmup si | Posterior => si_size si end.
+
 Fixpoint rows_from (k c : nat) (m : option string) (ph : phase) (size : nat) (i : nat) (cnts : list Z)
   : list drow :=
   match cnts with
@@ -179,8 +183,8 @@ Definition entry_groups (k : nat) (si : sample_info) (e : entry) : option (list 
   match en_post e with
   | None => None
   | Some ps =>
-      Some [ rows_from k (en_code e) (en_msg e) Warmup (si_warmup si) 0 (zip_sub (en_total e) ps);
-             rows_from k (en_code e) (en_msg e) Posterior (si_size si) 0 (map Z.of_nat ps) ]
+      Some [ rows_from k (en_code e) (en_msg e) Warmup (phase_size si Warmup) 0 (zip_sub (en_total e) ps);
+             rows_from k (en_code e) (en_msg e) Posterior (phase_size si Posterior) 0 (map Z.of_nat ps) ]
   end.
 
 Fixpoint opt_all {X} (l : list (option X)) : option (list X) :=
@@ -206,23 +210,24 @@ Fixpoint sumQ_opt (l : list (option Q)) : option Q :=
   | Some q :: r => match sumQ_opt r with Some t => Some (q + t)%Q | None => None end
   end.
 
-(* groupby(level=[0,1,2,3]).aggregate({"count": "sum", "relative": "mean"}) on one group *)
-Definition aggregate (g : list drow) : option arow :=
+(* mean of a column of relative frequencies (nan if any entry is nan) *)
+Definition mean_rel (l : list (option Q)) : option Q :=
+  option_map (fun t => (t / inject_Z (Z.of_nat (length l)))%Q) (sumQ_opt l).
+
+(* groupby(level=[0,1,2,3]).aggregate({"count": "sum", "relative": "mean"}) on one group;
+   an empty group (no chain) yields no row *)
+Definition aggregate (g : list drow) : list arow :=
   match g with
-  | [] => None
+  | [] => []
   | r :: _ =>
-      Some (mkARow (rw_kernel r) (rw_code r) (rw_msg r) (rw_phase r)
-                   (sumZ (map rw_count g))
-                   (option_map (fun t => (t / inject_Z (Z.of_nat (length g)))%Q) (sumQ_opt (map rw_rel g))))
+      [mkARow (rw_kernel r) (rw_code r) (rw_msg r) (rw_phase r)
+              (sumZ (map rw_count g)) (mean_rel (map rw_rel g))]
   end.
 
 Definition error_df_chain (si : sample_info) (summ : list (list entry)) : option (list drow) :=
   option_map (@concat _) (df_groups si summ).
 Definition error_df_agg (si : sample_info) (summ : list (list entry)) : option (list arow) :=
-  match df_groups si summ with
-  | None => None
-  | Some gs => opt_all (map aggregate gs)
-  end.
+  option_map (flat_map aggregate) (df_groups si summ).
 
 (* ---------------------------------------------------------------------------------------- *)
 (* a whole run                                                                                *)
